@@ -19,7 +19,9 @@ Import ListNotations.
 Open Scope Q_scope.
 
 (* ------------------------------------------------------------------------------------------ constants of the code *)
-Definition DEFAULT_TIK : Q := 1 # 10000000000.         (* log_likelihood.DEFAULT_TIKHONOV_PARAMETER = 1.0e-10 *)
+(* log_likelihood.DEFAULT_TIKHONOV_PARAMETER = 1.0e-10, as the double it is (7737125245533627 / 2^86): the value travels
+   unchanged into the returned dictionary, so the correspondence compares it exactly *)
+Definition DEFAULT_TIK : Q := 7737125245533627 # 77371252455336267181195264.
 Definition MINVAR : Q := 1 # 10000000000.              (* aux.constant.MINIMUM_VALUE_VAR = 1.0e-10 *)
 Definition ALPHA_LO : Q := 1 # 1000.                   (* ALPHA_LOWER_FACTOR = 0.001 *)
 Definition ALPHA_HI : Q := 10.                         (* ALPHA_UPPER_FACTOR = 10 *)
